@@ -18,10 +18,10 @@
   behind when it raises.  The directed mutators iterate the caller's tail/head lists in list order, so no
   set-iteration oracle is needed.
 
-  The model describes the code with the proposed repairs applied
-  (proposed_fixes/C02-*.diff): members are validated before the first write (F1), strong node removal
-  purges the deleted edges from the other members' memberships (F2), every explicit edge ID advances the
-  counter (F4).  `freeze` is modelled as covering every structural mutator (F12 is C18's finding).
+  The model describes the repaired code (proposed_fixes/C02-*.diff, in /repo as 307633d, d32d5fa,
+  8a6cdf6): members are validated before the first write (F1), strong node removal purges the deleted
+  edges from the other members' memberships (F2), every explicit edge ID advances the counter (F4).
+  `freeze` covers every structural mutator (complete since /repo 85761ac, C18's finding F12).
 -/
 import XgiModel.Base
 import XgiModel.Core.HG   -- only for the shared `ErrKind` / `Outcome`
@@ -428,8 +428,8 @@ inductive Op where
   | freeze
   deriving Inhabited
 
-/-- which ops a frozen network rejects.  `freeze()` assigns `frozen` to the first nine; the model also
-    lists `add_node_to_edge` / `remove_node_from_edge` (the completion of the list is C18's repair, F12). -/
+/-- which ops a frozen network rejects: the names `freeze()` assigns `frozen` to (including
+    `add_node_to_edge` / `remove_node_from_edge` since C18's repair of F12) -/
 def Op.guardedByFreeze : Op → Bool
   | .addNode .. | .addNodesFrom .. | .removeNode .. | .removeNodesFrom .. | .addEdge ..
   | .addEdgesFrom .. | .removeEdge .. | .removeEdgesFrom .. | .clear ..
